@@ -15,6 +15,7 @@ import (
 	"strconv"
 	"strings"
 	"sync"
+	"time"
 
 	"github.com/Dash-Industry-Forum/livesim2/pkg/scte35"
 	"github.com/Eyevinn/mp4ff/mp4"
@@ -528,9 +529,14 @@ type windowIn struct {
 	Prefix  string `json:"url_prefix,omitempty"` // e.g. "chunkdur_0.5/" (chunked low-latency delivery)
 	// Concurrent: observed while many other segment requests were served at the same time
 	Concurrent bool `json:"concurrent,omitempty"`
+	// availabilityStartTime of the configuration (start_<s>) and its remainder modulo 60
+	StartS     int64  `json:"start_s"`
+	StartMod60 int64  `json:"start_mod_60"`
+	URL        string `json:"url,omitempty"` // the request the failure is about
 }
 
 type segObs struct {
+	URL        string
 	Nr         int
 	Start, Dur uint64
 	O          obs
@@ -574,7 +580,7 @@ func fetchSeg(ls *lib.Livesim, a *assetInfo, rep string, n int, nr int, segDur, 
 	}
 	url := fmt.Sprintf("/livesim2/%s%s/%s/%d.m4s?nowMS=%d", cfg, a.Name, rep, id, now)
 	r := ls.GetRaw(url)
-	so := segObs{Nr: nr, Status: r.Status}
+	so := segObs{Nr: nr, Status: r.Status, URL: url}
 	if r.Panic != "" {
 		return so, fmt.Errorf("%s: panic %s", url, r.Panic)
 	}
@@ -809,6 +815,34 @@ func oracleWindow(c *lib.Ctx, baseID string, w windowIn, segs []segObs) {
 			}
 		}
 	}
+	// the property's schedule is on the wall clock: "over any wall-clock minute ... at the documented
+	// offsets". Wall-clock time of a media time t is availabilityStartTime + t. When start_ is a multiple
+	// of 60 s this is the schedule on the media timeline checked above and below; otherwise an event that
+	// is right on the media timeline is reported under its own key if its wall-clock second is not a
+	// documented offset.
+	if w.StartMod60 != 0 {
+		for _, s := range segs {
+			for _, e := range s.Emsgs {
+				if uint64(e.TS) != ts || e.PT%ts != 0 {
+					continue // reported by checkEvent
+				}
+				wallS := int64(e.PT/ts) + w.StartS
+				okWall := false
+				for _, off := range offsetsDoc[n] {
+					if int64(off) == wallS%60 {
+						okWall = true
+					}
+				}
+				if !okWall {
+					x := in(s.Nr, e.PT, uint64(wallS%60))
+					x.URL = s.URL
+					c.Fail(fmt.Sprintf("%s/%d", baseID, s.Nr), "offset-on-media-timeline:start-not-multiple-of-60",
+						fmt.Sprintf("%s: splice at media time %d s = wall clock %s, second :%02d of its minute; documented offsets for %d per minute are %v s after the full wall-clock minute (start_%d: the schedule follows the minutes of the media timeline, %d s after the wall-clock minute)",
+							s.URL, e.PT/ts, time.Unix(wallS, 0).UTC().Format(time.RFC3339), wallS%60, n, offsetsDoc[n], w.StartS, w.StartMod60), x)
+				}
+			}
+		}
+	}
 	first, last := segs[0], segs[len(segs)-1]
 	anyEvent := len(carriers) > 0
 	for m := first.Start / (60 * ts); m <= (last.Start+last.Dur)/(60*ts)+1; m++ {
@@ -1019,6 +1053,10 @@ func runC13(c *lib.Ctx) error {
 	// (all == false) one in `every` of the others.
 	window := func(a *assetInfo, n int, firstNr, count int, kind string, every int) error {
 		w := windowIn{Kind: "window", Asset: a.Name, Rep: a.VideoRep, N: n, FirstNr: firstNr, Count: count, TS: a.TS, SegDur: a.SegDur, IsVideo: true, Prefix: urlPrefix}
+		if m := reStartOpt.FindStringSubmatch(urlPrefix); m != nil {
+			w.StartS, _ = strconv.ParseInt(m[1], 10, 64)
+			w.StartMod60 = w.StartS % 60
+		}
 		var segs []segObs
 		base := fmt.Sprintf("w%d", r.nextID)
 		for nr := firstNr; nr < firstNr+count; nr++ {
